@@ -28,6 +28,7 @@ import os
 import random
 import sys
 import threading
+import time
 import warnings
 from fractions import Fraction
 
@@ -995,21 +996,50 @@ def thr_ok(target, kind, slot, r, big=False):
     return [e for e in allp if close(fresh_call(kind, slot, e)[1], r)]
 
 
+THR_POLL = 0.002           # s between two looks at a thread that has not reached its pause point yet
+THR_STILL = 0.012          # no trace event for this long while the OS thread sleeps: the thread is blocked (on a lock)
+THR_STILL_BLIND = 0.25     # the same when /proc cannot tell whether the OS thread sleeps
+THR_HANG = 30.0            # not finished this long after every other thread was released: deadlock (or hang)
+_THR_POISON = []           # a deadlock was seen in this process: locks of the implementation may be held for ever
+
+
+def _os_asleep(th):
+    """True / False: the OS thread sleeps (futex: lock, semaphore) / runs or is runnable; None when unknown"""
+    try:
+        with open("/proc/self/task/%d/stat" % th.native_id) as f:
+            st = f.read()
+        return st[st.rindex(")") + 2] == "S"
+    except Exception:  # noqa
+        return None
+
+
+def thr_realised(ev):
+    ops = set(e["op"] for e in ev)
+    return "deadlock" if "deadlock" in ops else ("serialised" if "blocked" in ops else "as_scheduled")
+
+
 def thr_run(target, ctor, sched, pauses):
     """execute one interleaving with real threads: a `start` event lets thread t run its call up to its pause point (the
     pauses[t]-th function boundary of esutil/integrate/util.py or of the integrand; beyond the last: to the end), a `finish`
-    event lets it run to the end.  Exactly one thread runs at any time.  returns (events, boundary counts)"""
+    event lets it run to the end.  Exactly one thread runs at any time - unless the implementation refuses the interleaving:
+    a thread that cannot reach its pause point because a paused thread holds a lock it needs is recorded as `blocked`, the
+    paused threads are let run to their end (their `finish` is recorded where it really happened) and the blocked thread
+    goes on; the events returned are the schedule REALISED (Quadrature.tla: the implementation may make any group of
+    steps atomic, every behaviour it does show is judged).  A thread that does not finish after all others were released
+    is recorded as `deadlock` (judged: never allowed).  returns (events, boundary counts)"""
     import esutil.integrate as ei
     shared = ei.QGauss(ctor) if target == "shared" else (ctor if target == "own" else None)    # "own": the constructor argument
     calls = {ev["t"]: (ev["kind"], ev["arg"]) for ev in sched if ev["op"] == "start"}
     cond = threading.Condition()
     state = {t: "idle" for t in calls}
+    tick = {t: 0 for t in calls}
     go = {t: threading.Semaphore(0) for t in calls}
     res, nb = {}, {}
 
     def worker(t):
         kind, arg = calls[t]
-        go[t].acquire()
+        if not go[t].acquire(timeout=600):
+            return
         count, paused = [0], [False]
 
         def boundary():
@@ -1019,14 +1049,16 @@ def thr_run(target, ctor, sched, pauses):
                 with cond:
                     state[t] = "paused"
                     cond.notify_all()
-                go[t].acquire()
+                go[t].acquire(timeout=600)
 
         def local(frame, event, a):
+            tick[t] += 1
             if event == "return":
                 boundary()
             return local
 
         def glob(frame, event, a):
+            tick[t] += 1
             co = frame.f_code
             if co.co_filename.endswith(UTIL_SUFFIX) or co is _thr_integrand.__code__:
                 boundary()
@@ -1050,30 +1082,76 @@ def thr_run(target, ctor, sched, pauses):
     ths = {t: threading.Thread(target=worker, args=(t,), daemon=True) for t in calls}
     for th in ths.values():
         th.start()
+    ev, finished = [], set()
 
     def wait_for(t, wanted):
+        """'ok': state[t] in wanted; 'blocked': t makes no progress while another thread is paused; 'hang'"""
+        t0 = still = time.monotonic()
+        seen = tick[t]
         with cond:
-            if not cond.wait_for(lambda: state[t] in wanted, timeout=30):
-                raise MachineryError("thread %d did not reach %s (schedule %s)" % (t, wanted, sched))
-    ev = []
+            while True:
+                if cond.wait_for(lambda: state[t] in wanted, timeout=THR_POLL):
+                    return "ok"
+                now = time.monotonic()
+                asleep = _os_asleep(ths[t])
+                if tick[t] != seen or asleep is False:
+                    seen, still = tick[t], now
+                elif now - still >= (THR_STILL if asleep else THR_STILL_BLIND) and any(state[u] == "paused" for u in calls if u != t):
+                    return "blocked"
+                if now - t0 > THR_HANG:
+                    return "hang"
+
+    def finish_event(t):
+        if t in finished:
+            return
+        finished.add(t)
+        r = res[t]["r"]
+        ok = thr_ok(target, calls[t][0], t % 4, r) if res[t]["err"] == "none" and math.isfinite(r) else []
+        ev.append({"op": "finish", "t": t, "err": res[t]["err"], "ok": ok, "result": r if math.isfinite(r) else repr(r)})
+
+    def resume(t):
+        with cond:
+            state[t] = "running"
+        go[t].release()
+
+    def settle(t, wanted):
+        """bring thread t to `wanted`, letting paused threads that stand in its way run to their end first; False: deadlock"""
+        while True:
+            w = wait_for(t, wanted)
+            if w == "ok":
+                return True
+            if w == "hang":
+                ev.append({"op": "deadlock", "t": t})
+                return False
+            u = min(x for x in calls if x != t and state[x] == "paused")
+            ev.append({"op": "blocked", "t": t})
+            resume(u)
+            if not settle(u, ("done",)):
+                return False
+            finish_event(u)
+
+    alive = True
     for e in sched:
         t = e["t"]
         if e["op"] == "start":
             ev.append({"op": "start", "t": t, "kind": e["kind"], "arg": e["arg"]})
+            with cond:
+                state[t] = "running"
             go[t].release()
-            wait_for(t, ("paused", "done"))
-        else:
+            alive = settle(t, ("paused", "done"))
+        elif t not in finished:
             if state[t] == "paused":
-                with cond:
-                    state[t] = "running"
-                go[t].release()
-            wait_for(t, ("done",))
-            kind = calls[t][0]
-            r = res[t]["r"]
-            ok = thr_ok(target, kind, t % 4, r) if res[t]["err"] == "none" and math.isfinite(r) else []
-            ev.append({"op": "finish", "t": t, "err": res[t]["err"], "ok": ok, "result": r if math.isfinite(r) else repr(r)})
+                resume(t)
+            alive = settle(t, ("done",))
+            if alive:
+                finish_event(t)
+        if not alive:
+            _THR_POISON.append(1)
+            for g in go.values():                      # whatever can still run may run to its end
+                g.release()
+            break
     for th in ths.values():
-        th.join(timeout=30)
+        th.join(timeout=30 if alive else 1)
     return ev, nb
 
 
@@ -1098,9 +1176,11 @@ def obs_thr(args):
     for ev in c["sched"]:
         if ev["op"] == "start":
             pauses[ev["t"]] = rng.randint(1, thr_boundaries(c["target"], ev["kind"]))
+    if _THR_POISON:                                        # after a deadlock (reported) every further run in this process would hang as well
+        return {"k": "thr", "id": rid, "mode": "skipped"}
     ev, nb = thr_run(c["target"], c["ctor"], c["sched"], pauses)
     return {"k": "thr", "id": rid, "target": c["target"], "ctor": c["ctor"], "shared": c["target"] == "shared", "ev": ev, "mode": "stepped",
-            "pauses": pauses, "sched": c["sched"], "draw": draw}
+            "pauses": pauses, "sched": c["sched"], "draw": draw, "realised": thr_realised(ev)}
 
 
 def thr_prime():
@@ -1160,15 +1240,25 @@ def obs_stress(args):
         ths = [threading.Thread(target=worker, args=(t,), daemon=True) for t in range(nthr)]
         for th in ths:
             th.start()
+        deadline = time.monotonic() + 300
         for th in ths:
-            th.join(timeout=300)
-            if th.is_alive():
-                bar.abort()
-                raise MachineryError("free-running threads did not finish (%s %s)" % (target, kind))
+            th.join(timeout=max(0.0, deadline - time.monotonic()))
+        hung = [t for t, th in enumerate(ths) if th.is_alive()]
+        if hung:
+            bar.abort()
     finally:
         sys.setswitchinterval(old)
     recs = []
     for rd in range(rounds):
+        if any(o is None for o in out[rd]):
+            if not hung:                                      # the barrier timed out although every thread came back: the machine, not the code
+                raise MachineryError("free-running threads did not meet at the barrier (%s %s)" % (target, kind))
+            # the first round that was not completed: the calls that did not return are a deadlock / hang of the implementation
+            ev = [{"op": "start", "t": t + 1, "kind": kind, "arg": 0} for t in hung] + [{"op": "deadlock", "t": hung[0] + 1}]
+            recs.append({"k": "thr", "id": rid0 + rd, "target": target, "ctor": ctor if target in ("own", "shared") else 0, "shared": target == "shared",
+                         "ev": ev, "mode": "free", "kind": kind, "rounds": rounds, "realised": "deadlock"})
+            _THR_POISON.append(1)
+            break
         ev = [{"op": "start", "t": t + 1, "kind": kind, "arg": out[rd][t][0]} for t in range(nthr)]
         for t in range(nthr):
             arg, slot, err, r = out[rd][t]
@@ -1376,7 +1466,7 @@ TRACE_FIELDS = {
 }
 
 
-THR_FIELDS = {"start": ("op", "t", "arg"), "finish": ("op", "t", "err", "ok")}
+THR_FIELDS = {"start": ("op", "t", "arg"), "finish": ("op", "t", "err", "ok"), "blocked": ("op", "t"), "deadlock": ("op", "t")}
 
 
 def trace_view(r):
@@ -1907,8 +1997,8 @@ def replay(ctx, case):
         if case["mode"] == "stepped":
             ev, _ = thr_run(case["target"], case["ctor"], case["sched"], {int(t): p for t, p in case["pauses"].items()})
             recs = [{"k": "thr", "id": 1, "target": case["target"], "ctor": case["ctor"], "shared": case["target"] == "shared", "ev": ev, "mode": "stepped",
-                     "pauses": {int(t): p for t, p in case["pauses"].items()}, "sched": case["sched"]}]
-            print("replay observed:", ev)
+                     "pauses": {int(t): p for t, p in case["pauses"].items()}, "sched": case["sched"], "realised": thr_realised(ev)}]
+            print("replay observed (%s):" % thr_realised(ev), ev)
         else:
             print("replay: free-running threads are not deterministic; running %d rounds again" % case["rounds"])
             recs = obs_stress((1, case["target"], case["thread_kind"], case["rounds"], ctx.seed))
